@@ -138,6 +138,94 @@ def strSegs (first : Bool) : Segs → String
   | .cons s r => strSeg first s ++ strSegs false r
 end
 
+/-! ### `Path.parse` at token level (mode strict, `shorthand_indexes` off) -/
+
+/-- the expression-lexer tokens a path is made of; everything else is `other` -/
+inductive PTok where
+  | word (s : String)          -- TOKEN_WORD
+  | identstring (s : String)   -- TOKEN_IDENTSTRING  `["…"]`
+  | identindex (i : Int)       -- TOKEN_IDENTINDEX   `[3]`
+  | lbracket | rbracket | dot
+  | other (n : Nat)
+  deriving DecidableEq
+
+mutual
+/-- the token sequence the lexer produces for the text `strSeg first s` -/
+def tokSeg (first : Bool) : Seg → List PTok
+  | .name s => if isProperty s then (if first then [.word s] else [.dot, .word s]) else [.identstring s]
+  | .idx i => [.identindex i]
+  | .sub p => [.lbracket] ++ tokSegs true p ++ [.rbracket]
+def tokSegs (first : Bool) : Segs → List PTok
+  | .nil => []
+  | .cons s r => tokSeg first s ++ tokSegs false r
+end
+
+/-- The unchanged tree's `Path.__str__` started with `buf = [str(next(it))]`: a nested path in root
+position lost its brackets (repaired by `fix:` ff25976).  Token view of that for a bracketed root. -/
+def tokSegsOrig : Segs → List PTok
+  | .cons (.sub p) r => tokSegs true p ++ tokSegs false r
+  | p => tokSegs true p
+
+def startsWithWord : List PTok → Bool
+  | .word _ :: _ => true
+  | _ => false
+
+mutual
+/-- the `while True:` loop of `Path.parse`, returning the segments from here on -/
+def pathLoopS (ts : List PTok) : Option (Segs × {r : List PTok // r.length ≤ ts.length}) :=
+  match ts with
+  | .word s :: r =>
+    -- "Two consecutive words indicate end of path."
+    if startsWithWord r then some (.cons (.name s) .nil, ⟨r, by simp⟩)
+    else match pathLoopS r with
+      | some (p, r') => some (.cons (.name s) p, ⟨r'.1, by have := r'.2; simp only [List.length_cons]; omega⟩)
+      | none => none
+  | .identstring s :: r =>
+    if startsWithWord r then none        -- strict: "expected a dot or bracket notation"
+    else match pathLoopS r with
+      | some (p, r') => some (.cons (.name s) p, ⟨r'.1, by have := r'.2; simp only [List.length_cons]; omega⟩)
+      | none => none
+  | .identindex i :: r =>
+    if startsWithWord r then none
+    else match pathLoopS r with
+      | some (p, r') => some (.cons (.idx i) p, ⟨r'.1, by have := r'.2; simp only [List.length_cons]; omega⟩)
+      | none => none
+  | .lbracket :: r =>
+    match parsePathS r with
+    | some (q, ⟨.rbracket :: r', h⟩) =>
+      if startsWithWord r' then none
+      else match pathLoopS r' with
+        | some (p, r'') => some (.cons (.sub q) p, ⟨r''.1, by
+            have := r''.2; simp only [List.length_cons] at h ⊢; omega⟩)
+        | none => none
+    | _ => none
+  | .dot :: r =>
+    -- strict, no shorthand indexes: a dot must be followed by a word
+    if startsWithWord r then
+      match pathLoopS r with
+      | some (p, r') => some (p, ⟨r'.1, by have := r'.2; simp only [List.length_cons]; omega⟩)
+      | none => none
+    else none
+  | rest => some (.nil, ⟨rest, Nat.le_refl _⟩)
+termination_by 2 * ts.length
+decreasing_by
+  all_goals simp_wf
+  all_goals (try simp only [List.length_cons] at *)
+  all_goals omega
+
+/-- `Path.parse`: the loop, then "missing or unexpected path segment" when nothing was collected -/
+def parsePathS (ts : List PTok) : Option (Segs × {r : List PTok // r.length ≤ ts.length}) :=
+  match pathLoopS ts with
+  | some (.nil, _) => none
+  | x => x
+termination_by 2 * ts.length + 1
+decreasing_by
+  all_goals simp_wf
+end
+
+def pathLoop (ts : List PTok) : Option (Segs × List PTok) := (pathLoopS ts).map fun x => (x.1, x.2.1)
+def parsePath (ts : List PTok) : Option (Segs × List PTok) := (parsePathS ts).map fun x => (x.1, x.2.1)
+
 /-- primitive expressions (`parse_primitive`) -/
 inductive Prim where
   | nil | tru | fals | empty | blank
